@@ -374,9 +374,27 @@ def check_main(prop: str, tier: str) -> int:
     return 1 if reported else 0
 
 
+def digests_main(prop: str, tier: str, n: int, start: int = 0) -> int:
+    """Print {index: digest} for runs start..start+n-1 of the batch (used by selftest/determinism.py)."""
+    batch_seed = int(os.environ.get('VERIF_SEED', '0'))
+    workers = int(os.environ.get('VERIF_WORKERS', str(len(os.sched_getaffinity(0)) or 4)))
+    eng = load_engine(prop)
+    tmp = tempfile.mkdtemp(prefix=f'det_{prop}_', dir=os.environ.get('VERIF_TMP') or (default_tmp() if os.makedirs(default_tmp(), exist_ok=True) is None else None))
+    freeze_heap()
+    pool = ForkPool(child_fn(eng, tier), workers, tmp, per_run_timeout=float(eng.RUN_TIMEOUT))
+    out = {}
+    pool.map((Job(i, {'mode': 'seed', 'seed': run_seed_for(prop, batch_seed, i)}) for i in range(start, start + n)),
+             on_result=lambda j, r: out.__setitem__(str(j.key), r.get('digest') or r.get('harness_error') or 'TIMEOUT'))
+    shutil.rmtree(tmp, ignore_errors=True)
+    print('DIGESTS ' + json.dumps(out, sort_keys=True))
+    return 0
+
+
 def main(argv):
     if len(argv) >= 2 and argv[0] == '--replay':
         return replay_main(argv[1])
+    if len(argv) >= 4 and argv[0] == '--digests':
+        return digests_main(argv[1], argv[2], int(argv[3]), int(argv[4]) if len(argv) > 4 else 0)
     if len(argv) != 2 or argv[0] not in ENGINES or argv[1] not in ('quick', 'thorough'):
         print(__doc__)
         return 2
